@@ -322,6 +322,60 @@ func c11NonCanonical(cs *core.Case) {
 
 func runC11(c *core.Ctx) {
 	c.Section("non-canonical", c.N(80000, 4000000), c11NonCanonical)
+	// SDES members whose size is around the points where a 16-bit word count wraps (64 KiB, 256 KiB
+	// and one word beyond): what Validate and CNAME say depends on the items, never on the size.
+	// Such values cannot be marshalled, so only Validate / CNAME / MarshalSize are judged.
+	sdesSizes := []int{65532, 65536, 65540, 131072, 262140, 262144, 262148, 262152, 524292}
+	c.Section("oversize-sdes", uint64(len(sdesSizes))*2, func(cs *core.Case) {
+		r := cs.R
+		target := sdesSizes[cs.Idx/2]
+		withCNAME := cs.Idx%2 == 0
+		// one chunk: SSRC(4) + items (2+len each) + terminator and padding to a word boundary
+		s := &rtcp.SourceDescription{Chunks: []rtcp.SourceDescriptionChunk{{Source: r.U32()}}}
+		ch := &s.Chunks[0]
+		cname := "oversize-" + gen.TextN(r, 8)
+		if withCNAME {
+			ch.Items = append(ch.Items, rtcp.SourceDescriptionItem{Type: rtcp.SDESNote, Text: "first"})
+			ch.Items = append(ch.Items, rtcp.SourceDescriptionItem{Type: rtcp.SDESCNAME, Text: cname})
+		}
+		for s.MarshalSize() < target-300 {
+			ch.Items = append(ch.Items, rtcp.SourceDescriptionItem{Type: rtcp.SDESType(2 + r.Intn(7)), Text: gen.TextN(r, 255)})
+		}
+		for n := 0; s.MarshalSize() != target && n < 600; n++ {
+			// approach the target with short items; the last one is sized to land exactly
+			left := target - s.MarshalSize()
+			l := left - 2
+			if l > 255 {
+				l = 100
+			}
+			if l < 0 {
+				break
+			}
+			ch.Items = append(ch.Items, rtcp.SourceDescriptionItem{Type: rtcp.SDESTool, Text: gen.TextN(r, l)})
+			for s.MarshalSize() > target && len(ch.Items) > 0 && len(ch.Items[len(ch.Items)-1].Text) > 0 {
+				it := &ch.Items[len(ch.Items)-1]
+				it.Text = it.Text[:len(it.Text)-1]
+			}
+		}
+		cp := rtcp.CompoundPacket{&rtcp.ReceiverReport{SSRC: r.U32()}, s}
+		var verr, cerr error
+		var cn string
+		if pan, v, st := core.Guard(func() { verr = cp.Validate(); cn, cerr = cp.CNAME() }); pan {
+			cs.Fail("panic/Validate", core.W{"sdes_marshal_size": s.MarshalSize(), "panic": v, "stack": st})
+			return
+		}
+		cs.Eval(2)
+		cs.DistinctN(1)
+		cs.Count(fmt.Sprintf("oversize-sdes/%d", s.MarshalSize()))
+		det := func() core.W {
+			return core.W{"sdes_marshal_size": s.MarshalSize(), "items": len(ch.Items), "has_cname_item": withCNAME, "validate_error": errStr(verr), "cname": cn, "cname_error": errStr(cerr)}
+		}
+		cs.Check((verr == nil) == withCNAME, "validate", det)
+		if withCNAME {
+			cs.Check(cerr == nil && cn == cname, "cname", det)
+		}
+		cs.Check(cp.MarshalSize() == cp[0].MarshalSize()+s.MarshalSize(), "marshal-size", det)
+	})
 	maxLen := 4
 	if c.Thorough() {
 		maxLen = 7
